@@ -18,4 +18,5 @@ func checkC10(c *Check) {
 	c.serverContracts("C10.3 shutdown-protocol")
 	c.peerManagerContracts("C10.3 manager-effects")
 	c.fsmContracts("C10.5 fsm-effects")
+	c.noWaitUnderLock("C10.3 no-wait-under-lock")
 }
